@@ -161,12 +161,25 @@ static Judged judge(const std::string &key, const std::string &tag, Sys &S, cons
     ld bd = c13::bound(o.iters, S.A.n, S.sv, 0, sg::norm2_ld(o.x), S.fn, o.resid);
     ld diff = fabsl((ld)o.resid - tr);
     if (o.resid > 1 || tr > 1) vf::count("diverged_not_judged_for_truthfulness." + tag);
-    else if (!(diff <= bd)) vf::fail("cx.truthful." + tag, key, vf::KS() << "reported=" << o.resid << " true=" << (double)tr << " |diff|=" << (double)diff << " > bound=" << (double)bd << " iters=" << o.iters << " kappa=" << S.sv.kappa << in);
     else if (o.resid < 1e-8 && !(tr <= 1e-8L * (1 + 1e-6L) + bd)) vf::fail("cx.tol." + tag, key, vf::KS() << "reported=" << o.resid << " < tol but true=" << (double)tr << in);
+    else if (!(diff <= bd) && !(o.resid < 1e-8 && tr < 1e-8L)) vf::fail("cx.truthful." + tag, key, vf::KS() << "reported=" << o.resid << " true=" << (double)tr << " |diff|=" << (double)diff << " > bound=" << (double)bd << " iters=" << o.iters << " kappa=" << S.sv.kappa << in);
+    else if (!(diff <= bd)) vf::count("margin.gap_above_bound_but_both_below_tol");
     J.conv = o.resid < 1e-8 && tr <= 1e-8L * (1 + 1e-6L) + bd;
     if (J.conv) vf::count("converged." + tag);
     if (o.iters >= 2) vf::count("iters_ge_2." + tag);
     return J;
+}
+
+// early-stopped probe (maxiter = 2): two-sided bound as derived (see C13_solve_main.cpp)
+static void judge_early(const std::string &key, const std::string &tag, Sys &S, const Cfg &g, const Out &o, const std::string &in) {
+    if (o.threw || (g.c == "smoothed_aggr_emin" && !S.herm)) return;
+    if (!c13::all_finite(o.x) || !std::isfinite(o.resid)) return;
+    ld tr = sg::true_residual(S.A, S.f, o.x) / S.fn;
+    ld bd = c13::bound(o.iters, S.A.n, S.sv, 0, sg::norm2_ld(o.x), S.fn, o.resid);
+    ld diff = fabsl((ld)o.resid - tr);
+    vf::count(tr > 1e-6L ? "early.residual_above_1e-6" : "early.residual_below_1e-6");
+    if (o.resid > 1 || tr > 1) return;
+    if (!(diff <= bd)) vf::fail("cx.truthful_early." + tag, key, vf::KS() << "maxiter=2 reported=" << o.resid << " true=" << (double)tr << " |diff|=" << (double)diff << " > bound=" << (double)bd << " iters=" << o.iters << in);
 }
 
 int main(int argc, char **argv) {
@@ -179,8 +192,12 @@ int main(int argc, char **argv) {
         size_t ncase = 0;
         for (auto &S : sys) {
             std::vector<std::string> solvers = S.herm ? std::vector<std::string>{"cg", "bicgstab", "gmres"} : std::vector<std::string>{"bicgstab", "gmres"};
-            if (T) { solvers.push_back("idrs"); solvers.push_back("lgmres"); solvers.push_back("fgmres"); solvers.push_back("bicgstabl"); solvers.push_back("richardson"); }
+            if (T) { solvers.push_back("lgmres"); solvers.push_back("fgmres"); solvers.push_back("bicgstabl"); }      // idrs / richardson: see C13_solve_main.cpp
             for (auto &c : coars) for (auto &r : relax) for (auto &sv : solvers) {
+                // Complex-shifted (non-Hermitian) systems: components whose definition presupposes a real positive spectrum / an M-matrix
+                // (chebyshev relaxation, ruge_stuben coarsening -- the latter is not offered for complex values at all) and the
+                // BiCGStab(L) recurrence (residual gap near breakdown: C01's subject) are not part of the comparison.
+                if (!S.herm && (r == "chebyshev" || c == "ruge_stuben" || sv == "bicgstabl")) continue;
                 ++ncase;
                 if (!vf::take([&] { return std::string(vf::KS() << "cs|" << S.id << "|" << c << "|" << r << "|" << sv); })) continue;
                 std::string key = vf::KS() << "cs|" << S.id << "|" << c << "|" << r << "|" << sv;
@@ -195,8 +212,12 @@ int main(int argc, char **argv) {
                     std::string tag = std::string(kn[kind]) + (form ? ".A" : "");
                     const std::string in = std::string(" :: form=") + (form ? "S(A,rhs,x)" : "S(rhs,x)") + in0;
                     Out orl = run_real(S.A, g, S.f, kind, form);
-                    if (first) { Jc = judge(key, "complex", S, g, oc, orl, in0); first = false; }
+                    if (first) {
+                        Jc = judge(key, "complex", S, g, oc, orl, in0); first = false;
+                        if (!oc.threw) { if (oc.iters > 2) { Cfg ge = g; ge.maxiter = 2; judge_early(key, "complex", S, ge, run_complex(S.A, ge, S.f), in0); } else judge_early(key, "complex", S, g, oc, in0); }
+                    }
                     Judged Jr = judge(key, tag, S, g, orl, oc, in);
+                    if (!orl.threw) { if (orl.iters > 2) { Cfg ge = g; ge.maxiter = 2; judge_early(key, tag, S, ge, run_real(S.A, ge, S.f, kind, form), in); } else judge_early(key, tag, S, g, orl, in); }
                     if (!orl.threw && (orl.levels >= 2 || orl.iters >= 2)) any2 = true;
                     if (Jc.conv && Jr.conv) {
                         ld d = 0; for (int i = 0; i < S.A.n; ++i) d += sg::abs2_ld(oc.x[i] - orl.x[i]); d = sqrtl(d);
